@@ -51,6 +51,20 @@ fn bits_of(words: &[u64]) -> Vec<u64> {
     out
 }
 
+/// indices k such that mark k is the first one after >= 1 whole 64-bit words without marks
+fn gap_ks(ps: &[u64]) -> Vec<u64> {
+    let mut v = vec![];
+    let mut prev_word: i64 = -1;
+    for (j, &p) in ps.iter().enumerate() {
+        let w = (p / 64) as i64;
+        if w - prev_word >= 2 {
+            v.push(j as u64);
+        }
+        prev_word = w;
+    }
+    v
+}
+
 const EDGE_LENS: [usize; 24] = [
     0, 1, 2, 3, 31, 32, 33, 62, 63, 64, 65, 66, 127, 128, 129, 191, 192, 193, 255, 256, 257, 319, 320, 321,
 ];
@@ -260,6 +274,14 @@ fn record(args: &Args) {
             }
             for &k in &ks_extra {
                 ks.push(k % (mc + 2));
+            }
+            // the first mark after every run of whole index words without any mark (duplicate
+            // entries in the cumulative rank array: the word lookup of select must be stable)
+            for ps in [&mk, &nl] {
+                let g = gap_ks(ps);
+                for &k in g.iter().take(4).chain(g.iter().rev().take(3)) {
+                    ks.push(k);
+                }
             }
             for &k in &ks {
                 let a = clamp_i(k);
